@@ -157,6 +157,24 @@ def run_impl(c):
             o, a = EPOCH + dt.timedelta(microseconds=c["n"]), _dtm(c["a"])
         else:
             o, a = ht.datetime(1904, 1, 1, tzinfo=dt.timezone.utc) + ht.timedelta(yoctoseconds=c["n"]), _dtm(c["a"])
+        if c.get("hist") and oty.endswith("datetime"):
+            # reach the same tick value through a history: inspect an earlier value (fills caches),
+            # then add a delta; the result must compare exactly like a fresh value with the same ticks
+            d = c["hist"]
+            try:
+                x0 = _dtm(c["a"] - d["bt"])
+                _ = (x0.year, str(x0), x0 < o)
+                if d["kind"] == "bt":
+                    a2 = x0 + _td(d["bt"])
+                elif d["kind"] == "dt":
+                    a2 = x0 + dt.timedelta(microseconds=d["n"])
+                else:
+                    a2 = x0 + ht.timedelta(yoctoseconds=d["n"])
+                twin = _dtm(a2.ticks)
+                return {"v": [a2 < o, a2 == o, a2 > o, o < a2, o == a2, o > a2],
+                        "twin": [twin < o, twin == o, twin > o, o < twin, o == twin, o > twin]}
+            except (OverflowError, ValueError):
+                pass
         return {"v": [a < o, a == o, a > o, o < a, o == a, o > a]}
     raise AssertionError(k)
 
@@ -208,7 +226,8 @@ def to_coq(c, r):
         lo, hi, ur = RANGES[c["rty"]]
         return "Mix %s %s %s %s %s %s %s %s %s" % (b(c["sub"]), b(c["rev"]), z(c["a"]), z(c["n"]), z(UNIT[c["oty"]]), vf.resc(r), z(ur), z(lo), z(hi))
     if k == "mixcmp":
-        return "MixCmp %s 0" % " ".join(b(x) for x in r["v"])
+        same = 0 if r.get("twin", r["v"]) == r["v"] else 1
+        return "MixCmp %s %d" % (" ".join(b(x) for x in r["v"]), same)
     raise AssertionError(k)
 
 
@@ -324,7 +343,22 @@ def _mixed_cases(rng, n):
                     a >>= 20
                 if rng.random() < 0.3:
                     a = (n_ * T64) // UNIT[oty] + rng.randrange(-1, 2)
-            out.append({"k": "mixcmp", "oty": oty, "a": a, "n": n_})
+            cse = {"k": "mixcmp", "oty": oty, "a": a, "n": n_}
+            if oty.endswith("datetime") and rng.random() < 0.6:
+                kind = rng.choice(["bt", "dt", "ht"])
+                if kind == "bt":
+                    cse["hist"] = {"kind": "bt", "bt": rng.choice([1, 54210, T64 // 3, rng.randrange(T64)])}
+                elif kind == "dt":
+                    nn = rng.choice([1, 100, 333, 999999, rng.randrange(1, 10**7)])
+                    cse["hist"] = {"kind": "dt", "n": nn, "bt": (nn * T64) // 10**6}
+                else:
+                    nn = rng.choice([1, 54211, 10**18 + 1, rng.randrange(1, 10**25)])
+                    cse["hist"] = {"kind": "ht", "n": nn, "bt": (nn * T64 + 10**24 // 2) // 10**24}
+                # compare against an instant adjacent to the result
+                if rng.random() < 0.7:
+                    lo_n, hi_n = (DT_LO, DT_HI) if oty == "dt.datetime" else (DT_LO * 10**18, DT_HI * 10**18)
+                    cse["n"] = max(lo_n, min(hi_n, (a * UNIT[oty]) // T64 + rng.randrange(-1, 2)))
+            out.append(cse)
             continue
         if oty.endswith("timedelta"):
             aty = rng.choice(["TD", "DT"])
